@@ -6,7 +6,8 @@ RULE = ("histories of 1-4 add_constraint_R_zero calls on one PCSO; H = integer-c
         "(integer-valued) spin image of one of the 14 boolean branch shapes, six relations, lam in {.5,1,2,3}, "
         "log_trick both ways, bounds omitted/exact/widened/half-open; penalty = exact difference after - before on "
         "the full {+1,-1} table over H's spins x new ancilla spins; ancilla names disjoint across the history and "
-        "num_ancillas >= ancillas present after every call. Non-trivial / distinct as in C02")
+        "num_ancillas >= ancillas present after every call. Non-trivial / distinct as in C02"
+        ' Also: bounds as any valid enclosure (integer or fractional widening, one-sided, lists), log_trick spelled as int / numpy bool, caller edits of its own polynomial, interleaved validity queries, and between two constraints refresh / update(model) / += model / deepcopy / copy.copy / copy() / copy constructor.')
 TIERS = {"quick": {"shards": 8, "cases": 800}, "thorough": {"shards": 16, "cases": 15000}}
 FLOOR_BASE = {"quick": 400, "thorough": 10000}    # case counts the floors below were calibrated for; the launcher scales them
 KIND = "spin"
